@@ -10,6 +10,15 @@ import threading as _real_threading
 
 _RealThread = _real_threading.Thread
 _RealSemaphore = _real_threading.Semaphore
+_TL = _real_threading.local()
+
+
+def check_foreign():
+    """Seams call this first: a thread left over from an earlier run (its kernel is no longer
+    the active one) must not touch the current world - it is unwound instead."""
+    k = getattr(_TL, "kernel", None)
+    if k is not None and (k is not _KERNEL or k.dead):
+        raise SimCrash()
 
 
 class SimCrash(BaseException):
@@ -54,6 +63,7 @@ class Task:
 
     def _body(self):
         k = self.kernel
+        _TL.kernel = k
         self.go.acquire()
         try:
             if k.dead:
@@ -95,6 +105,18 @@ class Kernel:
         self.log.ev("spawn", name)
         return t
 
+    def _mine(self):
+        """The task of the calling thread, None for the scheduler's own (main) thread."""
+        k = getattr(_TL, "kernel", None)
+        if k is None:
+            return None
+        if k is not self or self.dead:
+            raise SimCrash()
+        me = self.current
+        if me is None or me.thread is not _real_threading.current_thread():
+            raise SimCrash()           # not the baton holder: a stray thread
+        return me
+
     def _park(self):
         me = self.current
         if me.proc is not None and me.proc in self.fenced:
@@ -117,7 +139,7 @@ class Kernel:
 
     def yield_point(self, label=""):
         """A plain pre-emption point."""
-        me = self.current
+        me = self._mine()
         if me is None:
             return
         if self.dead:
@@ -129,7 +151,7 @@ class Kernel:
     def block(self, pred, timeout=None, label=""):
         """Wait until pred() holds or `timeout` virtual seconds passed.
         Returns True if pred holds."""
-        me = self.current
+        me = self._mine()
         if me is None:
             # not under the scheduler (single-task world)
             if not pred() and timeout is not None:
@@ -145,7 +167,7 @@ class Kernel:
         return pred()
 
     def sleep(self, d):
-        me = self.current
+        me = self._mine()
         if me is None:
             self.clock.advance(d)
             return
@@ -198,7 +220,7 @@ class Kernel:
                 t.go.release()
         for t in self.tasks:
             if t.thread is not None:
-                t.thread.join(timeout=5.0)
+                t.thread.join(timeout=60.0)
         leaked = [t.name for t in self.tasks if t.thread is not None and t.thread.is_alive()]
         return leaked
 
